@@ -145,10 +145,10 @@ theorem valid_natAscii (n : Nat) : validUtf8 (natAscii n) = true := by
   simp; omega
 
 theorem json_text_utf8 (named numbered : Bool) (order : List (Bytes × Int)) (indices : List Int)
-    (line out : Bytes) (h : json named numbered order indices line = .ok out)
+    (line out : Bytes) (ht : GoTyped order indices) (h : json named numbered order indices line = .ok out)
     (hk : ∀ p ∈ order, validUtf8 p.1 = true)
     (hv : ∀ i, validUtf8 (capture indices line i) = true) : validUtf8 out = true := by
-  rw [json_ok_text named numbered order indices line out h]
+  rw [json_ok_text named numbered order indices line out ht h]
   apply valid_objText
   intro m hm
   rcases List.mem_append.mp hm with hm | hm
